@@ -31,7 +31,8 @@ CONSTANTS
   MaxCb,       \* max_dispatch_callbacks (0 = unlimited)
   LimitPrio,   \* limit_callbacks_after_prio
   ScriptOps,   \* set of names of ops usable as callback scripts
-  PreAlloc     \* TRUE: the pool events exist (event_new) in the initial state
+  PreAlloc,    \* TRUE: the pool events exist (event_new) in the initial state
+  NX           \* number of extra plain one-shot timer events (ids 11..10+NX), for heap-shape coverage
 
 VARIABLES st, hist
 
@@ -44,7 +45,7 @@ SIGINT == 6
 CT(q) == 6 + q            \* q in 1..2  -> 7, 8
 ONCE(k) == 8 + k          \* k in 1..2  -> 9, 10
 NW == 3                   \* watcher slots 1..NW
-Ent == 1..10
+Ent == 1..(10 + NX)
 Internal == {6, 7, 8}
 Onces == {9, 10}
 CQ == 1..2
@@ -54,6 +55,7 @@ Kind(x) == CASE x \in {1, 2} -> "io"
              [] x = 5 -> "sig"
              [] x = SIGINT -> "io"
              [] x \in {7, 8} -> "timer"
+             [] x > 10 -> "timer"
              [] OTHER -> "once"
 Persist(x) == x \in {1, 4, 5, 6}
 Closure(x) == IF Kind(x) = "sig" THEN "signal" ELSE IF Persist(x) THEN "persist" ELSE "event"
@@ -274,12 +276,12 @@ PendMask(S, x) ==
   ELSE ResMask((IF "INS" \in S.ev[x].fl THEN MaskRes(EvMask(x)) ELSE {})
                \cup (IF S.ev[x].fl \cap {"ACT", "LATER"} # {} THEN S.ev[x].res \ {"F"} ELSE {})
                \cup (IF "TMO" \in S.ev[x].fl THEN {"T"} ELSE {}))
-PoolSeq == [i \in 1..NEv |-> i]
+UId(i) == IF i <= NEv THEN i ELSE i + 5      \* observation slot -> event id
 Obs(S, r) ==
   [ r |-> r,
-    p |-> [i \in 1..NEv |-> IF i \in Pool THEN PendMask(S, i) ELSE -1],
-    d |-> [i \in 1..NEv |-> IF i \in Pool /\ S.ev[i].alloc /\ "TMO" \in S.ev[i].fl THEN S.ev[i].dl ELSE -1],
-    pr |-> [i \in 1..NEv |-> IF i \in Pool /\ S.ev[i].alloc THEN S.ev[i].pri ELSE -1],
+    p |-> [i \in 1..(NEv + NX) |-> IF UId(i) \in Pool THEN PendMask(S, UId(i)) ELSE -1],
+    d |-> [i \in 1..(NEv + NX) |-> IF UId(i) \in Pool /\ S.ev[UId(i)].alloc /\ "TMO" \in S.ev[UId(i)].fl THEN S.ev[UId(i)].dl ELSE -1],
+    pr |-> [i \in 1..(NEv + NX) |-> IF UId(i) \in Pool /\ S.ev[UId(i)].alloc THEN S.ev[UId(i)].pri ELSE -1],
     na |-> NAct(S), ne |-> S.cnt,
     ma |-> IF S.fuzz THEN [_any |-> TRUE] ELSE S.actmax, me |-> IF S.fuzz THEN [_any |-> TRUE] ELSE S.cntmax,
     gb |-> IF S.brk THEN 1 ELSE 0, ge |-> IF S.term THEN 1 ELSE 0 ]
